@@ -1241,6 +1241,9 @@ func (c01) Gen(rng *rand.Rand, tier string, emit func(string)) {
 		"parse gb0 " + h("LOCUS       A 1 bp\nFEATURES    x\n                     /db_xref=\"taxon:99999999999999999999\"\nORIGIN\n        1 ac gt a b c d e f g\n//"),
 		"parse gb0 " + h("LOCUS       A 1 bp\nFEATURES    x\n                     /db_xref=\"taxon:-12\"\nORIGIN\n//\nLOCUS        1 bp\nFEATURES    x\n                     /db_xref=\"taxon:+7\nORIGIN\n//"),
 		"parse em0 " + h("//"), "parse em0 -", "parse em1 " + h("ID   A;B\nFH   k\nFH\nFT   x\nFT                   /db_xref=\"taxon:\"\n     ac gt\n     acgt       4\n//\n//"),
+		// known finding C01-kseq-isspace-title: VT / FF in a title (kseq splits with isspace())
+		"kseq fa " + h(">a\vb c\nACGT\n"), "kseq fa " + h(">a\fb c\nACGT\n>x y\fz\nGG\n"), "kseq fq " + h("@a\vb c\nACGT\n+\nIIII\n"), "kseq fq " + h("@r1\f\nAC\n+\nII\n"),
+		"kseq fa " + h(">a b\vc\nACGT\n"), // VT after the first blank: both readers agree
 		"kseq fa " + h(">a d e\nACGT\nAC\n>b\nGG\n"), "kseq fa " + h(">c d\r\nACGT\r\n"), "kseq fa " + h(">c  d \t>e\r\nAC GT\r\n\r\n>x\nA\n"), "kseq fq " + h("@a d\nACGT\n+\n@+II\n@b\nGG\n+\n+I\n"),
 	} {
 		emit(c)
@@ -1941,6 +1944,12 @@ func (c01) Exec(c string) (string, []Fail) {
 				cls = "two-parsers-vt-ff."
 			}
 			fail(w[1]+"."+cls+d, "kseq reader and Go chunk parser disagree (%s): kseq %s ; go %s", d, c01Show(got), c01Show(goRecs))
+			if cls == "two-parsers-vt-ff." {
+				// open known finding C01-kseq-isspace-title: reported through the F line only; the canonical result stays
+				// what the property demands, so that the (kseq-free) model is not flagged as broken
+				stat("kseq-vt-ff-disagreement")
+				return "agree", fails
+			}
 			return "differ", fails
 		}
 		stat("kseq-compared")
